@@ -111,6 +111,9 @@ dataLoop:
 		}
 
 		var shards []ordertypes.Shard
+		// the renewal order pays for the shards that are stored now; a shard still migrating in
+		// is added to it when (and if) its migration completes
+		renewedShardIds := make([]uint64, 0)
 		for _, id := range order.Shards {
 			shard, found := k.order.GetShard(ctx, id)
 			if !found {
@@ -129,6 +132,9 @@ dataLoop:
 				resp.Result = append(resp.Result, kv)
 				continue dataLoop
 
+			}
+			if shard.Status == ordertypes.ShardCompleted {
+				renewedShardIds = append(renewedShardIds, id)
 			}
 			shards = append(shards, shard)
 		}
@@ -176,7 +182,7 @@ dataLoop:
 			Duration:  proposal.Duration,
 			Status:    order.Status,
 			Replica:   order.Replica,
-			Shards:    order.Shards,
+			Shards:    renewedShardIds,
 			Amount:    amount,
 			Size_:     order.Size_,
 			Operation: 3,
